@@ -118,6 +118,8 @@ Top(m) == IF Len(m.stack) = 0 THEN [f |-> "none"] ELSE m.stack[Len(m.stack)]
 Pop(m) == [m EXCEPT !.stack = SubSeq(@, 1, Len(@) - 1)]
 Push(m, fr) == [m EXCEPT !.stack = Append(@, fr)]
 SetTop(m, fr) == [m EXCEPT !.stack = [@ EXCEPT ![Len(@)] = fr]]
+(* inside a reaction tree: some system command is between `enter` and `exit` *)
+InTree(m) == \E i \in DOMAIN m.stack : m.stack[i].f = "cmd"
 
 ----------------------------------------------------------------------------
 (* reference counting of reactor handles (C07) *)
@@ -160,14 +162,14 @@ KillSys(m, s) == [m EXCEPT !.alive = @ \ {s}]
 KillEntity(m, e) ==
     LET comps == { c \in 1..2 : Get(m.comp, <<e, c>>, 0) # 0 }
         remrecs == [ c \in comps |->
-                      [c |-> c, e |-> e, seen |-> FALSE,
+                      [c |-> c, e |-> e, seen |-> FALSE, tree |-> InTree(m),
                        then |-> { x.id : x \in Range(SelectSeq(m.reg, LAMBDA x : x.kd = "rem" /\ x.ty = c)) }] ]
         remseq == IF 1 \in comps /\ 2 \in comps THEN <<remrecs[1], remrecs[2]>>
                   ELSE IF 1 \in comps THEN <<remrecs[1]>> ELSE IF 2 \in comps THEN <<remrecs[2]>> ELSE <<>>
         m1 == [m EXCEPT !.aliveE = @ \ {e},
                         !.reg = SelectSeq(@, LAMBDA x : ~(x.kd \in EntKinds /\ x.e = e)),
                         !.pendRem = @ \o remseq,
-                        !.pendDesp = IF e \in m.trk THEN Append(@, [e |-> e, seen |-> FALSE]) ELSE @,
+                        !.pendDesp = IF e \in m.trk THEN Append(@, [e |-> e, seen |-> FALSE, tree |-> InTree(m)]) ELSE @,
                         !.trk = @ \ {e},
                         !.comp = [ k \in DOMAIN @ |-> IF k[1] = e THEN 0 ELSE @[k] ],
                         !.elocal = IF e \in DOMAIN @ THEN [@ EXCEPT ![e] = 0] ELSE @]
@@ -177,7 +179,7 @@ KillEntity(m, e) ==
 RemoveComp(m, e, c) ==
     IF Get(m.comp, <<e, c>>, 0) = 0 THEN m
     ELSE [m EXCEPT !.comp = Put(@, <<e, c>>, 0),
-                   !.pendRem = Append(@, [c |-> c, e |-> e, seen |-> FALSE,
+                   !.pendRem = Append(@, [c |-> c, e |-> e, seen |-> FALSE, tree |-> InTree(m),
                         then |-> { x.id : x \in Range(RegsFor(m, "rem", c, e)) }])]
 
 ----------------------------------------------------------------------------
@@ -661,8 +663,19 @@ OnQuiesce(m, o) ==
                             /\ Matches(x, "rem", m.pendRem[i].c, m.pendRem[i].e)
         lateDesp == \E i \in DOMAIN m.pendDesp : m.pendDesp[i].seen
                       /\ \E x \in Range(m.reg) : x.kd = "desp" /\ x.e = m.pendDesp[i].e /\ x.s \in m.alive
-        m6 == Chk(m5, ~lateRem, "C08", "a component removal was not reacted to by the poll that followed it")
-        m7 == Chk(m6, ~lateDesp, "C08", "an entity despawn was not reacted to by the poll that followed it")
+        m6a == Chk(m5, ~lateRem, "C08", "a component removal was not reacted to by the poll that followed it")
+        m6 == IF lateRem /\ m.anyrev THEN V(m6a, "C06", "a removal registration not named by any revocation stopped working") ELSE m6a
+        m7a == Chk(m6, ~lateDesp, "C08", "an entity despawn was not reacted to by the poll that followed it")
+        \* removals and despawns that happened inside a reaction tree: every runner ends with a poll, so none may be
+        \* left unreported when the outermost flush returns ("no later than the end of the enclosing tree")
+        treeRem == \E i \in DOMAIN m.pendRem : m.pendRem[i].tree /\ ~m.pendRem[i].seen
+                      /\ \E x \in Range(m.reg) : x.id \in m.pendRem[i].then /\ x.s \in m.alive
+                            /\ Matches(x, "rem", m.pendRem[i].c, m.pendRem[i].e)
+        treeDesp == \E i \in DOMAIN m.pendDesp : m.pendDesp[i].tree /\ ~m.pendDesp[i].seen
+                      /\ \E x \in Range(m.reg) : x.kd = "desp" /\ x.e = m.pendDesp[i].e /\ x.s \in m.alive
+        m7 == IF treeRem \/ treeDesp
+              THEN V2(m7a, "C08", "C11", "a removal or despawn inside a reaction tree was still unreported when the tree ended")
+              ELSE m7a
         \* liveness of systems and entities
         m8 == Chk(m7, Elems(o.alive_sys) = m.alive, "C07", "set of living reactors differs from what their triggers imply")
         m9 == Chk(m8, Elems(o.alive_ent) = m.aliveE, "C18", "set of living entities differs from the despawns applied")
@@ -717,7 +730,8 @@ MonStep(m, o) ==
       [] o.t = "sysdrop" -> OnSysdrop(m, o)
       [] o.t = "oncedespawn" -> OnOnceDespawn(m, o)
       [] o.t = "quiesce" -> OnQuiesce(m, o)
-      [] o.t = "panic" -> V(m, "C18", "panic inside the framework")
+      [] o.t = "panic" -> IF o.runaway = 1 THEN V(m, "C02", "the reaction tree did not terminate (event limit exceeded)")
+                          ELSE V(m, "C18", "panic inside the framework")
       [] OTHER -> V(m, "C00", "unknown record")
 
 MonSeq(m, s) == FoldSeq(MonStep, m, s)
